@@ -320,9 +320,13 @@ func (t *wScreen) onMouseEvent(this js.Value, args []js.Value) interface{} {
 	mod := ModNone
 	button := ButtonNone
 
+	t.Lock()
+	mouseFlags := t.mouseFlags
+	t.Unlock()
+
 	switch args[2].Int() {
 	case 0:
-		if t.mouseFlags&MouseMotionEvents == 0 {
+		if mouseFlags&MouseMotionEvents == 0 {
 			// don't want this event! is a mouse motion event, but user has asked not.
 			return nil
 		}
@@ -446,10 +450,10 @@ func (t *wScreen) CanDisplay(r rune, checkFallbacks bool) bool {
 	if !checkFallbacks {
 		return false
 	}
-	if _, ok := t.fallback[r]; ok {
-		return true
-	}
-	return false
+	t.Lock()
+	_, ok := t.fallback[r]
+	t.Unlock()
+	return ok
 }
 
 func (t *wScreen) HasMouse() bool {
@@ -461,7 +465,9 @@ func (t *wScreen) HasKey(k Key) bool {
 }
 
 func (t *wScreen) SetSize(w, h int) {
+	t.Lock()
 	if w == t.w && h == t.h {
+		t.Unlock()
 		return
 	}
 
@@ -469,6 +475,7 @@ func (t *wScreen) SetSize(w, h int) {
 	t.cells.Resize(w, h)
 	js.Global().Call("resize", w, h)
 	t.w, t.h = w, h
+	t.Unlock()
 	t.postEvent(NewEventResize(w, h))
 }
 
